@@ -161,10 +161,35 @@ func genScenario(r *hx.Rng, id int, maxCmds int) *scenario {
 		sc.cmds = append(sc.cmds, srcCmd{name: "rpush", args: [][]byte{sc.keys[k], v}, key: k, keys: []int{k}})
 	}
 	// migrations: up to two, each begin -> (move)* -> finish at increasing request counts, or instant
+	// a slot never returns to a node it has left during the scenario: a hand-over A -> B -> A between two commands of one
+	// pipeline lets A refuse the first and execute the second (an environment no real resharding produces)
 	at := 0
+	owners := map[int][]int{}
 	for m := 0; m < r.Intn(3); m++ {
 		k := r.Intn(nk)
+		slot := fakeredis.HashSlot(sc.keys[k])
+		if owners[slot] == nil {
+			owners[slot] = []int{slot * 3 / 16384}
+		}
 		dst := r.Intn(3)
+		for tries := 0; tries < 8; tries++ {
+			been := false
+			for _, o := range owners[slot][:len(owners[slot])-1] {
+				been = been || o == dst
+			}
+			if !been {
+				break
+			}
+			dst = r.Intn(3)
+		}
+		been := false
+		for _, o := range owners[slot][:len(owners[slot])-1] {
+			been = been || o == dst
+		}
+		if been {
+			continue
+		}
+		owners[slot] = append(owners[slot], dst)
 		at += r.Intn(n + 2)
 		if r.Chance(40) {
 			// instant hand-over: the old owner answers MOVED from now on
